@@ -19,7 +19,7 @@ func mcSkip(c *Ctx, quickCfg string) {
 }
 
 func checkC02(c *Ctx) {
-	c.rule = "MC: over every byte string up to MaxLen over a grammar alphabet and every type, the reference grammar is self-delimiting (extent independent of trailing bytes; every strict prefix short). TRACE: one case = (typed value tree of a given type + trailing bytes); all 11x11 map and 11 list/set element combinations x counts 0,1,2,7; nesting 1..63 of every container kind; seeded random trees (depth<=5, strings up to 72KB); each is fed to the five skippers under bytes-backed, fitting, 1-byte, zero-byte and data+EOF source shapes; TLC computes the reference extent and judges success, length, returned bytes and source position. Containers of fixed-size elements of 4 GiB and more are skipped from a lazily mapped buffer and compared with the extent formula in Go."
+	c.rule = "MC: over every byte string up to MaxLen over a grammar alphabet and every type, the reference grammar is self-delimiting (extent independent of trailing bytes; every strict prefix short). TRACE: one case = (typed value tree of a given type + trailing bytes); all 11x11 map and 11 list/set element combinations x counts 0,1,2,7; nesting 1..63 of every container kind; seeded random trees (depth<=5, strings up to 72KB); each is fed to the five skippers under bytes-backed, fitting, 1-byte, zero-byte and data+EOF source shapes; TLC computes the reference extent and judges success, length, returned bytes and source position. Containers of fixed-size elements of 4 GiB and more are skipped from a lazily mapped buffer and compared with the extent formula in Go. LIVE CONNECTIONS: every stream skipper also runs on an exact-demand source (the value's bytes have arrived, nothing more; a Read after the last byte is over-demand and rejected) and the ReaderSkipDecoder (fresh and pooled) on a connection-like source whose Len / Buffered / Available report what is readable right now."
 	mcSkip(c, "MC_ThriftSkip_small.cfg")
 	c.TraceCheck(famSkipC02, wellFormedSkipCases(c, c.Pick(4000, 60000), 2))
 	// sessions: one decoder / reader instance skips 2..6 consecutive values (state carried between calls,
